@@ -119,13 +119,26 @@ func Collect(outs ...<-chan float64) [][]float64 {
 func Holds(n int) []RuleVal { return make([]RuleVal, n) }
 
 // Near reports whether a and b are equal within rounding relative to scale
-// (or either is non-finite): such a comparison is exempt.
+// (or either is infinite): such a comparison is exempt. A NaN operand is NOT
+// exempt: every ordered test against it is false, so a rule of the form
+// "Buy if x > y, Sell if x < y" gives Hold there, and the rule helpers are
+// written so that they do.
 func Near(a, b, scale float64) bool {
-	if math.IsNaN(a) || math.IsNaN(b) || math.IsInf(a, 0) || math.IsInf(b, 0) {
+	if math.IsNaN(a) || math.IsNaN(b) {
+		return false
+	}
+	if math.IsInf(a, 0) || math.IsInf(b, 0) {
 		return true
 	}
 	s := math.Max(math.Abs(scale), math.Max(math.Abs(a), math.Abs(b)))
 	return math.Abs(a-b) <= 1e-9*s
+}
+
+// NearNF is Near with NaN operands exempt as well (rules with conjunctions of
+// clauses, where the as-built evaluation order of undefined values is not
+// documented).
+func NearNF(a, b, scale float64) bool {
+	return math.IsNaN(a) || math.IsNaN(b) || Near(a, b, scale)
 }
 
 // At returns vals[i-w] — the indicator value that refers to snapshot position
